@@ -25,6 +25,13 @@ Emit == IF What = "equality"
                     EmitScenario([fv |-> fv, am |-> M, t |-> t, mut |-> "none", side |-> "none",
                                   pre |-> [op |-> "set", t |-> TReset(i, 1), attr |-> a, val |-> (IF a = "varOther" THEN "x" ELSE "y"),
                                            oc |-> (CHOOSE k \in DOMAIN M.comps : M.comps[k].name = "d1") - 1]])
+             \* an equivalence that leaves the model (partner without a component, in a component without a model, in another model):
+             \* it cannot be copied; the clone has the content of the abstract model and no equivalence that reaches outside
+             /\ \A o \in {"addEquivParentless", "addEquivOrphan", "addEquivForeign"}, v \in {0, 1} :
+                    EmitScenario([fv |-> fv, am |-> M, t |-> TModel, mut |-> "none", side |-> "none", pre |-> [op |-> o, t |-> TModel, c1 |-> 0, v1 |-> v]])
+             \* units that name the same units in two children with different attributes: the units, the model, and what holds them
+             /\ \A i \in {k \in DOMAIN M.units : M.units[k].kids # <<>>} : \A t \in {TUnits(i), TModel} \cup {TComp(k) : k \in DOMAIN M.comps} :
+                    EmitScenario([fv |-> fv, am |-> M, t |-> t, mut |-> "none", side |-> "none", pre |-> [op |-> "dupUnitRef", t |-> TUnits(i)]])
              /\ \A mut \in SetMutations(M) \cup ChildMutations(M), side \in {"orig", "clone"} :
                     EmitScenario([fv |-> fv, am |-> M, t |-> TModel, mut |-> mut, side |-> side])
 =============================================================================
